@@ -90,7 +90,7 @@ def W(**kw):
     return w
 
 PROPS['C04'] = dict(coq=['Properties/C04.v'], **hist_prop(
-    'C04', {'C04'}, W(slice=10, index=3, clip=4, iter=1.5), 1500, 40000, hg={'odd': 'mix'}))
+    'C04', {'C04'}, W(slice=10, index=3, clip=4, iter=1.5, assign=1.5, case=1, clear=0.6), 1500, 40000, hg={'odd': 'mix', 'esc': 0.2}))
 def _c05_seams(rep, rng, tier, term):
     from . import smallscope
     hs = list(smallscope.seam_histories(full=(tier != 'quick')))
@@ -100,7 +100,7 @@ def _c05_seams(rep, rng, tier, term):
     return ov, dv
 
 PROPS['C05'] = dict(coq=['Properties/C05.v'], **hist_prop(
-    'C05', {'C05'}, W(add=8, iadd=8, join=3, slice=4), 1500, 40000, hg={'odd': 'mix'}, extra=_c05_seams))
+    'C05', {'C05'}, W(add=8, iadd=8, join=3, slice=4), 1500, 40000, hg={'odd': 'mix', 'sgr_operands': 0.25}, extra=_c05_seams))
 PROPS['C06'] = dict(coq=['Properties/C06.v'], **hist_prop(
     'C06', {'C06'}, W(apply=14, slice=2), 1500, 40000, hg={'odd': 'mix'}))
 PROPS['C07'] = dict(coq=['Properties/C07.v'], **hist_prop(
@@ -280,3 +280,4 @@ PROPS['C03']['confirm_known'] = _known_confirm('C03', PROPS['C03']['confirm_know
 
 PROPS['C11'] = _with_extra(PROPS['C11'], direct2.c11_assign_ansistr_run)
 PROPS['C07'] = _with_extra(PROPS['C07'], direct2.c07_esc_run)
+PROPS['C04'] = _with_extra(PROPS['C04'], direct2.c04_esc_run)
